@@ -14,7 +14,7 @@ ALPHA = {
     'standard': '*~&V><$%PNXL!=xyzvabcdFGHOABCDE()0123456789 ',
 }
 FOREIGN = '#@?.é∀\t\n_-+[]{}"\'\\/|:;,'
-EVENT_BUDGET = 300000
+EVENT_BUDGET = 1500000
 
 _writers = {}
 def writer(notation):
@@ -88,12 +88,44 @@ def mutate(rng, text, alpha):
         return text[:i + 1] + ''.join(rng.choice('0123456789') for _ in range(rng.choice((1, 2, 3, 12)))) + text[i + 1:]
     return ' ' * rng.randrange(1, 3) + text + ' ' * rng.randrange(0, 3)
 
+DEEP = dict(
+    polish=dict(unary='NTML', binpre='KACU', atom='a', quant=('Vx', 'Sy', 'Vz'), pred={'Vx': 'Fx', 'Sy': 'Gy', 'Vz': 'Fz'},
+                follow=('Fx', 'Gy', 'VxFx', 'KVyGyGx', 'Ixx', 'SyGy', 'Fz')),
+    standard=dict(unary='~*PN', binpre='', atom='A', quant=('Lx', 'Xy', 'Lz'), pred={'Lx': 'Fx', 'Xy': 'Gy', 'Lz': 'Fz'},
+                  follow=('Fx', 'Gy', 'LxFx', 'x=x', 'LyGy & Gx', 'XyGy', 'Fz')))
+
+def deep_input(rng, notation):
+    "Very deep nesting / very long digit runs, optionally inside a quantifier scope."
+    d = DEEP[notation]
+    k = rng.choice((40, 140, 300, 600))
+    q = rng.choice(('', '') + d['quant'])
+    tail = d['pred'][q] if q and rng.random() < 0.8 else d['atom']
+    r = rng.random()
+    if r < 0.5:
+        body = rng.choice(d['unary']) * k + tail
+    elif r < 0.7 and d['binpre']:
+        op = rng.choice(d['binpre'])
+        body = (op + d['atom']) * k + tail
+    elif r < 0.8 and notation == 'standard':
+        body = '(' * k + tail + (' & A)' * rng.choice((0, k)))
+    else:
+        digits = '1' * rng.choice((30, 400, 4400))
+        body = (tail[0] + digits + tail[1:]) if len(tail) > 1 else tail + digits + rng.choice(('', tail))
+    return q + body
+
 def gen_inputs(rng, cfg, n):
     notation = cfg['notation']
     alpha = ALPHA[notation]
     out = []
     for _ in range(n):
         r = rng.random()
+        if out and len(out[-1]) > 200 and rng.random() < 0.8:
+            # right after a very long input: short inputs that use its variables
+            out.append(rng.choice(DEEP[notation]['follow']))
+            continue
+        if r < 0.012:
+            out.append(deep_input(rng, notation))
+            continue
         if r < 0.35 or r < 0.75:
             prof = lexgen.Profile(rng, modal=rng.random() < 0.4, quant=rng.random() < 0.6, preds=rng.random() < 0.8,
                                   identity=rng.random() < 0.3, depth=rng.choice((0, 1, 2, 3)))
@@ -109,7 +141,7 @@ def gen_inputs(rng, cfg, n):
             text = ''.join(rng.choice(alpha if rng.random() < 0.93 else FOREIGN) for _ in range(rng.choice((1, 2, 3, 4, 6, 10, 20))))
         else:
             text = ''.join(rng.choice(alpha) for _ in range(rng.choice((0, 1, 2))))
-        out.append(text[:200])
+        out.append(text[:200])      # (deep_input() strings above are exempt from this cap)
     return out
 
 class Budget(Exception):
